@@ -803,6 +803,7 @@ func main() {
 	c.Rule += " XR xr-switch: the user edits its update policy and revision selector before every XR point (rotation over Automatic / Automatic+selector / Manual); the reference must follow the edited spec, also to a lower-numbered revision."
 	c.Rule += " " + "Histories with a finalizer-held deleted highest revision and its release; the real revision-created event handler is held against the real fetcher (every XR that would move must have been enqueued)."
 	c.Rule += " " + "One long-lived fetcher per execution; cache-reader List semantics for the revision controller; a 125-build history."
+	c.Rule += " " + "The whole XR reconciler over Manual / Automatic XRs that carry a revision reference but get their Composition through the XRD's default or enforced reference or their selector."
 	c.Assumptions = []string{
 		"sim implements the apiserver rules listed in DESIGN.md 2.2; user actions and reconciles do not overlap in time (the revision controller is a single worker per Composition)",
 		"revisions are never deleted except by the harness's restore / garbage collection of the foreign revision",
@@ -859,6 +860,9 @@ func main() {
 	}
 	close(ch)
 	wg.Wait()
+	if err := kit.Try(func() { runSelectedComposition(c) }); err != nil {
+		c.Violate("harness-panic", "selected-composition", err.Error(), nil)
+	}
 	for i, coll := range colls {
 		if panics[i] != nil {
 			c.Violate("harness-panic", hs[i].Name, panics[i].Error(), map[string]any{"history": hs[i]})
